@@ -231,6 +231,20 @@ func (w *World) execOp(op hx.Zs) []hx.Zs {
 		case 2:
 			cmd.Function = util.Ptr(Function(map[int64]int64{1: 2, 2: 1, 3: 1, 4: 1}[fn]))
 		}
+		// Every third measurement write is a PARTIAL write (cmdControl partial, no selector) of the same
+		// one-item list: by the restricted-exchange rules it merges into item 1, which gives the same
+		// data as the full write the model knows (the measurement item has no write-protection flag), so
+		// the gate must treat it exactly like a full write.  Only when the addressed feature already
+		// stores that item: a remote partial write naming an unknown item is refused (5d85d8b), a full
+		// write is not.
+		if fn == 3 && ctr%3 == 0 && dst.Feat > 0 {
+			if fl := w.localFeature(dst.Ent, dst.Feat-1); fl != nil {
+				if d, ok := fl.DataCopy(Function(3)).(*model.MeasurementListDataType); ok && d != nil && len(d.MeasurementData) == 1 &&
+					d.MeasurementData[0].MeasurementId != nil && *d.MeasurementData[0].MeasurementId == 1 && d.MeasurementData[0].ValueType != nil {
+					cmd.Filter = []model.FilterType{{CmdControl: &model.CmdControlType{Partial: &model.ElementTagType{}}}}
+				}
+			}
+		}
 		w.inject(p, model.DatagramType{Header: h, Payload: model.PayloadType{Cmd: []model.CmdType{cmd}}})
 	case 13: // Disconnect
 		p := r.n()
